@@ -94,6 +94,23 @@ def make_ctx(ctx, proto, is_client, chain=None, key=None, enc_key=None, ca=None,
     return c
 
 
+def widen_trust(creds, tag, before, after, client_side=True, server_side=True):
+    """Trust stores as deployments have them: the root that matters surrounded by `before` + `after` unrelated roots (same
+    composition for the client's store and for the store the server checks client certificates against)."""
+    from .ref import sm2 as R
+    extra = []
+    for j in range(before + after):
+        o = X.priv_from_seed('extra-root', tag, j)
+        extra.append(X.make_cert('extra-root-%s-%d' % (tag, j), R.pub(o), 'extra-root-%s-%d' % (tag, j), o,
+                                 exts=[X.ext_basic_constraints(True), X.ext_key_usage(X.KU_KEY_CERT_SIGN | X.KU_CRL_SIGN)]))
+    bundle = X.certs_pem(extra[:before] + [creds.pki.root] + extra[before:])
+    if server_side:
+        creds.srv_trust = write_file(creds.dir + '/srv_trust_wide.pem', bundle)
+    if client_side:
+        creds.root_pem = write_file(creds.dir + '/cli_trust_wide.pem', bundle)
+    return before + after + 1
+
+
 def pair_ctx(ctx, creds, proto, mutual=False, depth=4, client_has_cert=None):
     srv_trust = getattr(creds, 'srv_trust', None) or creds.root_pem
     srv = make_ctx(ctx, proto, False, creds.tlcp_chain if proto == TLCP else creds.tls_chain, creds.sign_key,
